@@ -15,7 +15,7 @@ L(xs) == DList(xs)
 D_a == MacroDef("@a", <<>>, L(<<S("push")>>))
 D_s == MacroDef("@s", <<>>, S("mov"))
 D_other == MacroDef("@other", <<>>, L(<<S("nop")>>))
-Refs == {"@a", "@s", "@x", "@x-y", "@a.b"}       \* @x, @x-y and @a.b have no definition
+Refs == {"@a", "@s", "@x", "@x-y", "@y.z"}       \* @x, @x-y and @y.z have no definition (and contain no defined name)
 User(r) == MacroDef("@u", <<>>, L(<<DMap1("$and", L(<<S(r), S("ret")>>))>>))
 
 Positions(r) ==
